@@ -684,7 +684,7 @@ class Fxp():
                 self.status['inaccuracy'] = True
 
             # force return raw value for better precision
-            val = val.val * 2**(self.n_frac - val.n_frac)
+            val = _rescale_raw(val.val, self.n_frac - val.n_frac)
             raw = True
 
             if not (vdtype == complex or np.issubdtype(vdtype, np.complexfloating)):
@@ -1118,7 +1118,7 @@ class Fxp():
         if isinstance(x, Fxp):
             raw_val = x.val
 
-            new_val_raw = raw_val * 2**(self.n_frac - x.n_frac)
+            new_val_raw = _rescale_raw(raw_val, self.n_frac - x.n_frac)
             self.set_val(new_val_raw, raw=True, index=index)
         else:
             self.set_val(x, index=index)
@@ -1679,7 +1679,7 @@ class Fxp():
 
     def like(self, x):
         if isinstance(x, self.__class__):
-            new_raw_val = self.val * 2**(x.n_frac - self.n_frac)
+            new_raw_val = _rescale_raw(self.val, x.n_frac - self.n_frac)
             return  x.deepcopy().set_val(new_raw_val, raw=True)
         else:
             raise ValueError('`x` should be a Fxp object!')
@@ -2362,6 +2362,17 @@ class Config():
 
 # ----------------------------------------------------------------------------------------
 # Internal functions
+
+def _rescale_raw(raw_val, n_shift):
+    """
+    Raw value multiplied by 2**n_shift. Python integers are used if the shifted codes (or the factor itself)
+    don't fit in a 64 bits integer, avoiding a silent wrap around.
+    """
+    factor = 2**n_shift
+    if isinstance(factor, int) and isinstance(raw_val, (np.ndarray, np.generic)) and raw_val.dtype.kind in 'iu' and raw_val.size > 0 and \
+        max(abs(int(np.max(raw_val))), abs(int(np.min(raw_val))), 1) * factor >= 2**63:
+        raw_val = raw_val.astype(object)
+    return raw_val * factor
 # ----------------------------------------------------------------------------------------
 def implements(*np_functions):
    "Register an __array_function__ implementation for Fxp objects."
